@@ -144,6 +144,37 @@ pub fn run(a: &Args) -> i32 {
         samples.push(json!({"seed": s.name, "fen": s.fen, "max_depth": dmax, "true_counts_by_depth": (0..=dmax).map(|d| expected(&p, d, tab)).collect::<Vec<_>>()}));
     }
     drop(check);
+    // command-line level (thorough): `chess count-positions --depth 4` prints one line per depth
+    if thorough {
+        match crate::props::c14_bin::build_binary() {
+            Ok(bin) => {
+                let out = std::process::Command::new(&bin).args(["count-positions", "--depth", "4"]).output();
+                match out {
+                    Ok(o) => {
+                        let text = String::from_utf8_lossy(&o.stdout).to_string();
+                        let want = [(1u32, 420u64), (2, 9322), (3, 206603), (4, 5072212)];
+                        for (d, n) in want {
+                            let line = text.lines().find(|l| l.starts_with(&format!("depth: {},", d)));
+                            let got = line.and_then(|l| l.split("positions: ").nth(1)).and_then(|r| r.split(',').next()).and_then(|x| x.trim().parse::<u64>().ok());
+                            calls += 1;
+                            if got != Some(n) {
+                                sink.push(Violation { prop: "C10".into(), class: "wrong-count-at-command-line".into(), seed: SEEDS[0].fen.into(), path: vec![], detail: format!("`chess count-positions --depth 4` line for depth {}: {:?}, true number {}", d, line, n), extra: json!({"kind": "c10-cli", "fen": SEEDS[0].fen, "depth": d}) });
+                            }
+                        }
+                        samples.push(json!({"command_line": "chess count-positions --depth 4", "output_head": text.lines().take(5).collect::<Vec<_>>()}));
+                    }
+                    Err(e) => {
+                        eprintln!("MACHINERY-ERROR: cannot run the chess binary: {}", e);
+                        return 2;
+                    }
+                }
+            }
+            Err(e) => {
+                eprintln!("MACHINERY-ERROR: {}", e);
+                return 2;
+            }
+        }
+    }
     rep.states = calls;
     rep.transitions = counted;
     rep.traces = calls;
